@@ -24,7 +24,7 @@ def run(tier):
     wd = vlib.workdir("c11")
     depth = 2 if tier == "quick" else 3
     cfg = os.path.join(wd, "mc.cfg")
-    open(cfg, "w").write("SPECIFICATION Spec\nCONSTANTS Depth = %d\n Export = TRUE\nINVARIANT CopyEqual\nINVARIANT Emit\nCHECK_DEADLOCK FALSE\n" % depth)
+    open(cfg, "w").write("SPECIFICATION Spec\nCONSTANTS Depth = %d\n Pre = 1\n Export = TRUE\nINVARIANT CopyEqual\nINVARIANT Emit\nCHECK_DEADLOCK FALSE\n" % depth)
     hists = os.path.join(wd, "hists.ndjson")
     r = vlib.tlc("NifCopy", cfg, workers=8, timeout=3000, export_to=hists, tag="c11-mc", heap="8g")
     ck.add_tlc("NifCopy(Depth=%d)" % depth, r, "interleavings of edits, saves and destructions after a copy")
